@@ -6,6 +6,10 @@ Open Scope Z_scope.
 
 Inductive case :=
 | Report (chk : bool) (h : history)            (* chk: also evaluate the verified statement checker *)
+| Session (steps : list (bool * history))       (* one long-lived ReposCollection asked for several reports while
+                                                   the repository changes in between: every report must be the
+                                                   report of the repository as it is at that moment (the model is a
+                                                   pure function of the history, it keeps nothing between reports) *)
 | SortKey (name : list Z)                       (* BranchName(name)._sort_items *)
 | Cmp (a b : list Z).                           (* sign of BranchName(a).cmp(BranchName(b)) *)
 
@@ -24,11 +28,14 @@ Definition sx_obranch (b : obranch) : sx :=
 Definition sx_item (i : item) : sx :=
   match i with IInt n => SL [SZ 0; SZ n] | IStr s => SL [SZ 1; sx_str s] end.
 
+Definition run_report (chk : bool) (h : history) : sx :=
+  SL [sx_res (sx_list sx_obranch) (report h);
+      SZ (if chk then (if acyclicb h && report_okb h (all_branches h) then 1 else 0) else 2)].
+
 Definition run (c : case) : sx :=
   match c with
-  | Report chk h =>
-      SL [sx_res (sx_list sx_obranch) (report h);
-          SZ (if chk then (if acyclicb h && report_okb h (all_branches h) then 1 else 0) else 2)]
+  | Report chk h => run_report chk h
+  | Session steps => SL (map (fun st : bool * history => run_report (fst st) (snd st)) steps)
   | SortKey n => sx_list sx_item (mk_sort_items n)
   | Cmp a b => SZ (Z.sgn (cmp_items (mk_sort_items a) (mk_sort_items b)))
   end.
